@@ -11,7 +11,9 @@ names = [a for a in sys.argv[1:] if a not in ("quick", "thorough")] or sorted(d 
 EXTRA = {"C01-3": ["C12"], "C10-3": ["C12"], "C07-1": ["C04"], "C17-1": ["C02"], "C17-2": ["C03", "C02"], "C18-1": ["C01"], "C18-3": ["C01"],
          "C02-3": ["C03", "C17"], "C12-1": ["C10"], "C20-3": ["C18"], "C14-3": ["C12"],
          "C01-6": ["C12", "C09"], "C04-6": ["C12", "C09"], "C18-6": ["C12"], "C07-4": ["C12"], "C09-5": ["C12"], "C18-4": ["C03", "C01"],
-         "C04-4": ["C07", "C03"], "C07-5": ["C04"], "C13-5": ["C09"], "C10-5": ["C12"], "C01-4": ["C18"]}
+         "C04-4": ["C07", "C03"], "C07-5": ["C04"], "C13-5": ["C09"], "C10-5": ["C12"], "C01-4": ["C18"],
+         "C09-7": ["C12"], "C09-9": ["C12"], "C18-7": ["C12", "C09"], "C04-9": ["C12", "C09"], "C20-8": ["C12"], "C10-7": ["C07"], "C07-9": ["C10"],
+         "C07-7": ["C03"], "C19-7": ["C12"], "C01-8": ["C09"], "C18-8": ["C01"], "C13-7": ["C09"], "C10-8": ["C09"]}
 
 
 def run(name):
